@@ -507,7 +507,7 @@ FaultChoices(d) ==
             \/ d[j].t = "enum" /\ d[j].name \in ReferencedEnums(d)
             \/ d[j].t = "tag"  /\ d[j].name \in UsedTags(d)}}
   \cup {Fault("undefined_new", 0, x) : x \in {"type", "enum", "tag", "paste"}}
-  \cup {Fault("second_info", 0, "")}
+  \cup (IF Len(Blocks(d, "info")) = 1 THEN {Fault("second_info", 0, "")} ELSE {})
 
 \* blocks at which a diagnostic for the fault may legitimately be located
 RefersTo(d, j, b) ==
@@ -520,7 +520,10 @@ RefersTo(d, j, b) ==
        [] OTHER -> FALSE
 FaultSites(d, f) ==
   CASE f.f = "undefined" -> {j \in 1..Len(d) : j # f.i /\ RefersTo(d, j, d[f.i])}
-    [] f.f \in {"undefined_new", "second_info"} -> {Len(d) + 1}
+    [] f.f = "undefined_new" -> {Len(d) + 1}
+    [] f.f = "second_info" -> {Len(d) + 1} \cup {j \in 1..Len(d) : d[j].t = "info"}
+    \* a declaration that lost its name leaves the references to that name dangling
+    [] f.f = "missing_param" -> {f.i} \cup {j \in 1..Len(d) : j # f.i /\ RefersTo(d, j, d[f.i])}
     [] f.f \in {"dup_name", "dup_url", "similar_path"} -> {f.i, Len(d) + 1}
     [] OTHER -> {f.i}
 
